@@ -242,3 +242,116 @@ def check_array_loops(ck, P, rid, file_suffix, array, count_key, floor, what):
             else:
                 ck.holds(rid, inst, lp.where, "%s visits %s[0 .. count-1]" % (f.name, array), cfg)
     ck.expect(rid, n, floor, "loops over %s[]" % array)
+
+
+def check_partition_clear(ck, P, rid, bound_rid=None):
+    """After a message count every thread zeroes its share of total_sent[]: the shares of threads 0..t-1 together cover the entries
+    of ranks 0..n-1 (else a stale count makes a rank wait for messages that were already counted), and no share reaches past the
+    array (`bound_rid`, memory safety)."""
+    import re
+    from . import ceval
+    cfg = P.config
+    f = P.fn("gvt_node_phase_run")
+    inst = "clear-every-rank@total_sent"
+    calls = [c for c in f.calls() if c.callee in ("memset", "__builtin_memset", "__builtin___memset_chk") and len(X.callee_args(c)) >= 3
+             and any(x.k == "DeclRefExpr" and x.name == "total_sent" for x in X.callee_args(c)[0].walk())]
+    decl = [v for v in f.walk() if v.k == "VarDecl" and v.name == "total_sent"]
+    m = re.search(r"\[(\d+)\]", decl[0].d.get("t", "")) if decl else None
+    if len(calls) != 1 or not m:
+        if rid:
+            ck.inconclusive(rid, inst, f.where, "the statement that zeroes total_sent[] after a count (one memset) was not recognised", cfg)
+        if bound_rid:
+            ck.inconclusive(bound_rid, "clear-in-bounds@total_sent", f.where, "the statement that zeroes total_sent[] was not recognised", cfg)
+        return
+    length = int(m.group(1))
+    c = calls[0]
+    dest = X.strip(X.callee_args(c)[0])
+    off = None
+    if dest.k == "DeclRefExpr":
+        off = 0
+    elif dest.k == "BinaryOperator" and dest.op == "+":
+        a, b = dest.children
+        if X.strip(a).k == "DeclRefExpr" and X.strip(a).name == "total_sent":
+            off = b
+        elif X.strip(b).k == "DeclRefExpr" and X.strip(b).name == "total_sent":
+            off = a
+    elif dest.k == "UnaryOperator" and dest.op == "&" and X.strip(dest.children[0]).k == "ArraySubscriptExpr":
+        off = X.strip(dest.children[0]).children[1]
+    esz = [x.d.get("cv") for x in X.callee_args(c)[2].walk() if x.k == "UnaryExprOrTypeTraitExpr" and x.d.get("cv")]
+    if off is None or not esz:
+        for r_, i_ in ((rid, inst), (bound_rid, "clear-in-bounds@total_sent")):
+            if r_:
+                ck.inconclusive(r_, i_, c.where, "start / length of the zeroed share are not of the form total_sent + e, k * sizeof(entry)", cfg)
+        return
+    esz = esz[0]
+    # locals defined in the enclosing blocks in front of the memset, and the guards the memset sits under
+    chain = []
+    cur = c
+    while cur.parent is not None and cur.parent.k not in ("SwitchStmt", "FunctionDecl"):
+        chain.append((cur.parent, cur))
+        cur = cur.parent
+
+    def share(n, t, r):
+        env = {"n_nodes": n, "global_config.n_threads": t, "rid": r}
+        for par, child in reversed(chain):
+            if par.k == "CompoundStmt":
+                for s in par.children:
+                    if s is child:
+                        break
+                    for v in s.walk():
+                        if v.k == "VarDecl" and v.children:
+                            val = ceval.ev(v.children[-1], env)
+                            if val is not None:
+                                env[v.name] = val
+            elif par.k == "IfStmt":
+                kids = [x for x in par.children if x.k != "Null"]
+                if child is kids[0]:
+                    continue
+                cv = ceval.ev(kids[0], env)
+                if cv is None:
+                    return None
+                if bool(cv) != (child is kids[1]):
+                    return ()
+        o = ceval.ev(off, env) if off != 0 else 0
+        ln = ceval.ev(X.callee_args(c)[2], env)
+        if o is None or ln is None:
+            return None
+        return (o, o + ln // esz) if ln > 0 else ()
+    bad = oob = None
+    unknown = False
+    hi = _hi(ck)
+    grid = [(n, t) for n in range(1, hi) for t in range(1, hi)]
+    for n, t in grid + [(length - d, t) for d in (0, 1, 2, 3) for t in (1, 2, 3, hi - 1)]:
+        covered = set()
+        for r in range(t):
+            sh = share(n, t, r)
+            if sh is None:
+                unknown = True
+                break
+            if not sh:
+                continue
+            if sh[0] < 0 or sh[1] > length:
+                oob = oob or (n, t, r, sh)
+            if n < hi:
+                covered.update(range(max(sh[0], 0), min(sh[1], n)))
+        if unknown:
+            break
+        if n < hi and len(covered) != n:
+            bad = bad or (n, t, sorted(set(range(n)) - covered))
+    if unknown:
+        if rid:
+            ck.inconclusive(rid, inst, c.where, "the share a thread zeroes is not a function of n_nodes, n_threads and rid alone", cfg)
+        if bound_rid:
+            ck.inconclusive(bound_rid, "clear-in-bounds@total_sent", c.where, "the share a thread zeroes is not a function of n_nodes, n_threads and rid alone", cfg)
+        return
+    if not rid:
+        pass
+    elif bad:
+        ck.violated(rid, inst, c.where, "with %d rank(s) and %d thread(s) the entries of rank(s) %s are never zeroed after a count: the next count adds to the stale value, that rank waits for messages which were already received and the round never completes" % bad, cfg)
+    else:
+        ck.holds(rid, inst, c.where, "for 1..%d ranks x 1..%d threads the shares of all threads cover total_sent[0..n-1]" % (hi - 1, hi - 1), cfg)
+    if bound_rid:
+        if oob:
+            ck.violated(bound_rid, "clear-in-bounds@total_sent", c.where, "with %d rank(s) and %d thread(s) thread %d zeroes entries [%d, %d) of an array of %d: a write past its end" % (oob[0], oob[1], oob[2], oob[3][0], oob[3][1], length), cfg)
+        else:
+            ck.holds(bound_rid, "clear-in-bounds@total_sent", c.where, "no share reaches past total_sent[%d] (ranks 1..%d and %d..%d evaluated)" % (length, hi - 1, length - 3, length), cfg)
